@@ -120,6 +120,16 @@ impl WalRecuperator {
             return Ok(());
         }
 
+        // The object gets the id it was created with: every later record of the log names it by
+        // that id, and ids handed out in between by transactions that are not redone (a CREATE
+        // that was rolled back) would otherwise shift it.
+        if let Some(object_id) = create_op.row_id() {
+            let mut pager = self.dml_executor.ctx().pager().write();
+            if object_id > pager.get_last_stored_object() {
+                pager.set_last_stored_object(object_id);
+            }
+        }
+
         // Try to deserialize as CreateTableInstr first
         if let Ok(create_table_instr) = CreateTableInstr::from_bytes(redo_bytes) {
             let instr = DdlInstruction::CreateTable(create_table_instr);
